@@ -27,6 +27,16 @@ func runC10(p *Prog, r *Report) {
 	r.Floor("C10.1/cond", "e4c.cond_waits", 4)
 	c10Anchored(p, r)
 	pipeIDPairing(p, r, "C10.7/id-pairing")
+	{
+		q := NewQ(p, r)
+		R := "C10.11/close-affects-only-itself"
+		r.Describe(R, "closing a listener affects only that object: the inproc registry entry is removed only if it is this listener's own (a listener whose Listen failed with ErrAddrInUse must not unregister the owner of the address)")
+		if f := q.Fn(R, "transport/inproc", "listener", "Close"); f.OK() {
+			del := f.Ev("delete", "delete").Arg(0, "transport/inproc.listeners.byAddr")
+			ok := len(del) == 1 && del[0].Args[1] == "recv.addr" && len(del[0].Guard) == 1 && del[0].Guard[0] == "transport/inproc.listeners.byAddr[recv.addr] == recv"
+			r.Check(ok, R, "inproc.listener.Close/unregisters-only-itself", del.Pos(p), "delete(byAddr, l.addr) only when byAddr[l.addr] == l", "inproc listener.Close removes the registry entry of its address without checking that the entry is itself: closing a listener that never bound the address makes the still-open owner unreachable (every Dial is refused): "+guardsOf(del))
+		}
+	}
 	r.Describe("C10.10/E3b", "no registration that Close tears down (endpoint lists, timers, the attached flag of a pipe, running flags) is conditional on a closed/closing test made in an earlier critical section: such a registration can slip past Close and outlive the socket")
 	e3bObligations(p, r, "C10.10/E3b", nil)
 	r.Describe("C10.9/closed-means-ErrClosed", "every error-returning method of a protocol socket/context returns ErrClosed on the branch of its own closed flag and on the select arm of its own close channel")
